@@ -16,7 +16,10 @@ RULE = ("random device states (32-byte hashes per firmware hash descriptor parse
         "0x31 prefix) queried through the real stack; every reply field is compared with the "
         "datum the device holds under the docs/protocol.md name; uiHeartbeat additionally over "
         "device mode transitions (normal, stuck in signer, stuck in heartbeat, lands in "
-        "bootloader, started in heartbeat mode). distinct = (command, state class, flags, "
+        "bootloader, started in heartbeat mode); then histories of 2..4 state-changing "
+        "operations (advance total / partial / refused by the device, ancestor "
+        "update ok / refused, reset, link failure + reconnection to a device with other keys) "
+        "each followed by blockchainState and getPubKey against the device's new data. distinct = (command, state class, flags, "
         "network, sig shape, transition); non-trivial = every case (each carries random data)")
 ASSUMPTIONS = [
     "simulated device + fake HID/TCP transports are trusted; firmware selectors are parsed "
@@ -24,9 +27,10 @@ ASSUMPTIONS = [
     "signature shapes are valid DER-like encodings (a device that returns undecodable DER is "
     "outside this property's quantifier)",
 ]
-FLOORS = {"quick": {"evaluations": 900, "field_comparisons": 6000, "uihb_transitions": 100},
+FLOORS = {"quick": {"evaluations": 900, "field_comparisons": 6000, "uihb_transitions": 100,
+                    "history_operations": 300},
           "thorough": {"evaluations": 1000000, "field_comparisons": 3000000,
-                       "uihb_transitions": 50000}}
+                       "uihb_transitions": 50000, "history_operations": 100000}}
 
 NETNAMES = {"NETID_MAINNET": "mainnet", "NETID_TESTNET": "testnet", "NETID_REGTEST": "regtest"}
 
@@ -50,12 +54,26 @@ def gen_diff(rng):
     return rng.getrandbits(288)
 
 
+def art(rng, n):
+    """n device bytes; a fifth of them look like artefacts of the transport or of the
+    APDU framing at one end (a status word, a command header, padding) - they are data
+    all the same and must be reported as they are"""
+    b = rng.randbytes(n)
+    if n < 2 or rng.random() >= 0.2:
+        return b
+    tail = rng.choice([b"\x90\x00", b"\x90\x00", b"\x6a\x87", b"\x00\x00", b"\xff\xff",
+                       b"\x80\x60", b"\x0a", b"\x00"])
+    if rng.random() < 0.7:
+        return b[:n - len(tail)] + tail if n >= len(tail) else b
+    return (tail + b)[:n]
+
+
 def gen_hb(rng):
     sig, rs = der.make_sig(rng, rng.choice(["normal", "short", "long", "x31", "rubbish", "min"]))
     return {"signature": sig, "rs": rs,
-            "message": rng.randbytes(rng.choice([0, 1, 78, 83, 100, rng.randint(1, 200)])),
-            "tweak": rng.randbytes(rng.choice([32, 32, 0, 31, 33])),
-            "pubkey": rng.randbytes(rng.choice([65, 65, 33, 64]))}
+            "message": art(rng, rng.choice([0, 1, 78, 83, 100, rng.randint(1, 200)])),
+            "tweak": art(rng, rng.choice([32, 32, 0, 31, 33])),
+            "pubkey": art(rng, rng.choice([65, 65, 33, 64]))}
 
 
 def netids():
@@ -90,15 +108,15 @@ def run_shard(spec, acc):
 def run_state(acc, cseed, platform, fw, nets, cmpf, Stack, SimDevice):
     rng = random.Random(cseed)
     case = {"seed": cseed, "platform": platform}
-    hashes = {hid: rng.randbytes(32) for hid in fw.values()}
+    hashes = {hid: art(rng, 32) for hid in fw.values()}
     diff = gen_diff(rng)
     flags = tuple(rng.randint(0, 1) * rng.choice([1, 1, 0xff, 2]) for _ in range(3))
     netname = rng.choice(list(nets) + ["invalid"])
     netbyte = nets[netname] if netname != "invalid" else rng.choice([0, 4, 0x7f, 0xff])
-    checkpoint = rng.randbytes(32)
+    checkpoint = art(rng, 32)
     mindiff = gen_diff(rng)
     params = checkpoint + mindiff.to_bytes(36, "big") + bytes([netbyte])
-    pubkeys = {path_to_binary(p): rng.randbytes(65) for p in ALL_PATHS}
+    pubkeys = {path_to_binary(p): art(rng, 65) for p in ALL_PATHS}
     hb = gen_hb(rng)
     uihb = gen_hb(rng)
     dev = SimDevice(platform=platform, mode=MODE_SIGNER, pubkeys=pubkeys,
@@ -181,6 +199,12 @@ def run_state(acc, cseed, platform, fw, nets, cmpf, Stack, SimDevice):
         if len(acc.samples) < 2:
             acc.sample({"platform": platform, "device_flags": flags, "difficulty": diff,
                         "network_byte": netbyte, "reply_signerHeartbeat": reply})
+        # ---- histories: operations that change what the device holds (successful, partial
+        # and refused advances, ancestor updates, resets, a link failure with reconnection)
+        # each followed by the queries again; after every operation the device holds new
+        # random data, so anything remembered from before shows up as a difference
+        if platform != "sgx":
+            history(acc, rng, s, dev, fw, cmpf, case, netname != "invalid")
     # ---- uiHeartbeat over mode transitions (Ledger only: needs app switching)
     if platform != "ledger":
         return
@@ -232,6 +256,83 @@ def run_state(acc, cseed, platform, fw, nets, cmpf, Stack, SimDevice):
             acc.violation("uiHeartbeat-error-not-905", {"reply": reply}, case)
         elif trans == "normal" and exitb != "timeout":
             acc.violation("uiHeartbeat-refused-on-normal-transition", {"reply": reply}, case)
+
+
+def history(acc, rng, s, dev, fw, cmpf, case, params_ok):
+    from ..gen import blocks as gb
+    from ..simdev.transport import Fault
+    blocks = [gb.gen_block(rng, 19, tiny=True) for _ in range(3)]
+
+    def adv(n):
+        return {"command": "advanceBlockchain", "version": 5,
+                "blocks": [b["raw"].hex() for b in blocks[:n]], "brothers": [[]] * n}
+    ops = {
+        "advance-total": (adv(1), {}, 0),
+        "advance-partial": (adv(2), {"final": "partial"}, 1),
+        "advance-refused": (adv(3), {"reject_if_count": {3: (2, 0x6B87 + 19)}}, -201),
+        "advance-refused-first": (adv(3), {"reject_if_count": {3: (1, 0x6B87 + 7)}}, -204),
+        "ancestor-ok": ({"command": "updateAncestorBlock", "version": 5,
+                         "blocks": [b["raw"].hex() for b in blocks[:2]]}, {}, 0),
+        "ancestor-refused": ({"command": "updateAncestorBlock", "version": 5,
+                              "blocks": [b["raw"].hex() for b in blocks[:3]]},
+                             {"reject_if_count": {3: (2, 0x6B87 + 19)}}, -201),
+        "reset": ({"command": "resetAdvanceBlockchain", "version": 5}, {}, 0),
+        "link-fault": (None, {}, None),
+    }
+    if case.get("platform") != "ledger" or not params_ok:
+        # socket errors are not classified as link failures (no repair follows); a device
+        # with an invalid network byte cannot be brought up again
+        del ops["link-fault"]
+    for step in range(rng.randint(2, 4)):
+        name = rng.choice(sorted(ops))
+        req, pol, want = ops[name]
+        dev.adv_policy = dict(pol)
+        acc.count("history_operations")
+        if name == "link-fault":
+            s.bus.arm({0: Fault(rng.choice(["read_error", "write_error"]))})
+            s.request({"command": "blockchainState", "version": 5})
+            s.bus.arm({})
+            dev.pending_link = None
+        else:
+            r, e, _ = s.request(req)
+            s.bus.arm({})
+            if e is not None or not isinstance(r, dict) or r.get("errorcode") != want:
+                acc.violation("history-operation-result:%s" % name,
+                              {"reply": r, "exc": repr(e), "want": want}, case)
+                return
+        # the device now holds other data
+        hashes = {hid: art(rng, 32) for hid in fw.values()}
+        diff = gen_diff(rng)
+        flags = tuple(rng.randint(0, 1) for _ in range(3))
+        dev.state = {"hashes": hashes, "difficulty": diff, "flags": flags}
+        if name == "link-fault":
+            # another device may have been plugged: keys too
+            dev.pubkeys = {path_to_binary(p): art(rng, 65) for p in ALL_PATHS}
+        reply, exc, _ = s.request({"command": "blockchainState", "version": 5})
+        acc.evaluations += 1
+        c2 = dict(case, after=name, step=step)
+        if exc is not None or not reply or reply.get("errorcode") != 0:
+            acc.violation("blockchainState-failed:after-%s" % name,
+                          {"exc": repr(exc), "reply": reply}, c2)
+            return
+        st = reply.get("state", {})
+        for field, fwname in fwconst.STATE_FIELD_TO_FW.items():
+            node = st
+            for part in field.split("."):
+                node = node.get(part) if isinstance(node, dict) else None
+            cmpf("state." + field + ":after-" + name, node, hashes[fw[fwname]].hex(), c2)
+        up = st.get("updating", {})
+        cmpf("state.updating.total_difficulty:after-" + name, up.get("total_difficulty"),
+             diff, c2)
+        for k, nm in enumerate(["in_progress", "already_validated", "found_best_block"]):
+            cmpf("state.updating.%s:after-%s" % (nm, name), up.get(nm), bool(flags[k]), c2)
+        p = rng.choice(ALL_PATHS)
+        reply, exc, _ = s.request({"command": "getPubKey", "version": 5, "keyId": p})
+        acc.evaluations += 1
+        if exc is None and reply:
+            cmpf("getPubKey.pubKey:after-" + name, reply.get("pubKey"),
+                 dev.pubkeys[path_to_binary(p)].hex(), c2)
+        acc.distinct.add("history|%s" % name)
 
 
 def _hb_fail(d, apdu):
